@@ -465,7 +465,7 @@ try:
         seen.add(ck)
         nfile += 1
         inp = {'route': route, 'd2': d2, 'bpv': repr(bpv), 'bs': list(bs)}
-        out = os.path.join(tmp, f'o{nfile}.sgz')
+        out = os.path.join(tmp, f'o{nfile % 3}.sgz')      # three output paths, re-used: a path is re-converted with other settings after it was read
         n_free, comps = completions(d2, bpv, bs)
         ok_req = n_free <= 1 and (not d2 or bs[0] == 1)
         expect = comps[0] if (ok_req and len(comps) == 1) else None
